@@ -137,10 +137,10 @@ inline History histParse(const std::string& t) {
   return h;
 }
 
-static const int NSCALARS = 12;
-static const char* kScalarName[] = {"null", "true", "42", "-7e10", "1.5", "1e100", "\"k\"linked", "\"k\"copied", "\"v2\"copied", "raw[1]", "raw\\xc9", "raw\\xc6\\x80000000"};
-static const char* kTexts[] = {"{\"k\":[1,\"k\"]}", "[1e100,\"v2\"]", "\"k\"", "[1,", "msgpack{\"k\":[1,\"k\"]}", "[\"k\",\"k\\u0000x\"]"};
-static const int NTEXTS = 6;
+static const int NSCALARS = 15;
+static const char* kScalarName[] = {"null", "true", "42", "-7e10", "1.5", "1e100", "\"k\"linked", "\"k\"copied", "\"v2\"copied", "raw[1]", "raw\\xc9", "raw\\xc6\\x80000000", "18446744073709551615", "MsgPackBinary(ab)", "MsgPackExtension(1,x)"};
+static const char* kTexts[] = {"{\"k\":[1,\"k\"]}", "[1e100,\"v2\"]", "\"k\"", "[1,", "msgpack{\"k\":[1,\"k\"]}", "[\"k\",\"k\\u0000x\"]", "[0,1,2,3,4,5,6,7,8]"};
+static const int NTEXTS = 7;  // the last one (nine slots: three 4-slot pools, pool table on the heap) is only used by --init=bulk
 static const char kMsgPackText[] = "\x81\xa1k\x92\x01\xa1k";  // {"k":[1,"k"]}
 
 inline std::string opText(const Op& o) {
@@ -194,7 +194,10 @@ inline MValue scalarModel(int s) {
     case 8: return MValue::str("v2");
     case 9: return MValue::raw("[1]");
     case 10: return MValue::raw("\xc9");                                  // an ext32 header without its size bytes
-    default: return MValue::raw(std::string("\xc6\x80\x00\x00\x00", 5));  // a bin32 header announcing 2^31 bytes
+    case 11: return MValue::raw(std::string("\xc6\x80\x00\x00\x00", 5));  // a bin32 header announcing 2^31 bytes
+    case 12: return MValue::integer((i128(1) << 64) - 1);                 // stored as Uint64: owns an extension slot
+    case 13: return MValue::raw(std::string("\xc4\x02" "ab", 4));           // MsgPackBinary("ab"): bin8 header + payload
+    default: return MValue::raw(std::string("\xd4\x01x", 3));              // MsgPackExtension(1, "x"): fixext1
   }
 }
 
@@ -537,7 +540,10 @@ inline bool setScalar(T t, int s) {
     case 8: return t.set(std::string("v2"));
     case 9: return t.set(serialized(std::string("[1]")));
     case 10: return t.set(serialized(std::string("\xc9")));
-    default: return t.set(serialized(std::string("\xc6\x80\x00\x00\x00", 5)));
+    case 11: return t.set(serialized(std::string("\xc6\x80\x00\x00\x00", 5)));
+    case 12: return t.set(18446744073709551615ULL);
+    case 13: return t.set(MsgPackBinary("ab", 2));
+    default: return t.set(MsgPackExtension(1, "x", 1));
   }
 }
 template <typename T>
@@ -554,7 +560,10 @@ inline bool addScalar(T t, int s) {
     case 8: return t.add(std::string("v2"));
     case 9: return t.add(serialized(std::string("[1]")));
     case 10: return t.add(serialized(std::string("\xc9")));
-    default: return t.add(serialized(std::string("\xc6\x80\x00\x00\x00", 5)));
+    case 11: return t.add(serialized(std::string("\xc6\x80\x00\x00\x00", 5)));
+    case 12: return t.add(18446744073709551615ULL);
+    case 13: return t.add(MsgPackBinary("ab", 2));
+    default: return t.add(MsgPackExtension(1, "x", 1));
   }
 }
 
@@ -760,8 +769,8 @@ struct Alphabet {
 };
 
 inline void enabledOps(const World& W, const Alphabet& AB, std::vector<Op>& out) {
-  std::vector<int> setScalars = AB.full ? std::vector<int>{0, 1, 2, 3, 4, 5, 6, 7, 8, 9, 10, 11} : std::vector<int>{0, 2, 3, 6, 7, 8, 10};
-  std::vector<int> addScalars = AB.full ? std::vector<int>{2, 3, 7, 8} : std::vector<int>{2, 7};
+  std::vector<int> setScalars = AB.full ? std::vector<int>{0, 1, 2, 3, 4, 5, 6, 7, 8, 9, 10, 11, 12, 13, 14} : std::vector<int>{0, 2, 3, 5, 6, 7, 8, 10, 12, 13};
+  std::vector<int> addScalars = AB.full ? std::vector<int>{2, 3, 7, 8, 12, 13, 14} : std::vector<int>{2, 7, 13};
   std::vector<std::string> keys = {"a", "b"};
   std::vector<Path> paths[2] = {allPaths(W.M[0]), allPaths(W.M[1])};
   for (int d = 0; d < 2; d++) {
@@ -843,7 +852,7 @@ inline void enabledOps(const World& W, const Alphabet& AB, std::vector<Op>& out)
       o.doc2 = 0;
       o.path2.clear();
       // deserialization into this value
-      for (int k = 0; k < NTEXTS; k++) {
+      for (int k = 0; k < NTEXTS - 1; k++) {
         if (!AB.full && (k == 1 || k == 2)) continue;
         o.code = DESERIALIZE; o.a = k; out.push_back(o);
       }
@@ -929,6 +938,56 @@ inline std::string concreteKey(Real& R, std::string* errors) {
 }
 
 // Replays `prefix` (unchecked) and then executes `last` with all oracles.  Returns protocol text.
+// Reads through the NON-const API (proxies of JsonDocument / JsonVariant / JsonArray / JsonObject) of targets that do not exist:
+// an absent key, the index one and two beyond the end, a member of a member.  A read may not create anything (the caller
+// compares the concrete state before and after) and must answer null / false / 0 / the default.
+template <typename P>
+inline void probeAbsent(P proxy, const char* what, std::string& err) {
+  bool bad = false;
+  if (!proxy.isNull()) bad = true;
+  if (proxy.template is<JsonArray>() || proxy.template is<JsonObject>() || proxy.template is<int>() || proxy.template is<const char*>()) bad = true;
+  if (!proxy.template as<JsonArray>().isNull() || !proxy.template as<JsonObject>().isNull() || !proxy.template as<JsonVariant>().isNull()) bad = true;
+  if (!proxy.template as<JsonVariantConst>().isNull()) bad = true;
+  if (proxy.size() != 0 || proxy.nesting() != 0) bad = true;
+  if ((proxy | 5) != 5) bad = true;
+  JsonVariant conv = proxy;
+  if (!conv.isNull()) bad = true;
+  JsonArray ca = proxy;
+  JsonObject co = proxy;
+  if (!ca.isNull() || !co.isNull()) bad = true;
+  if (proxy["nested"].template is<JsonArray>() || !proxy[2].isNull()) bad = true;
+  if (bad) err += std::string("a read of an absent target through ") + what + " does not answer null/false/0; ";
+}
+
+inline std::string probeNonConstReads(Real& R, World& W) {
+  std::string err;
+  for (int d = 0; d < 2; d++) {
+    JsonDocument& doc = *R.D[d];
+    std::vector<Path> paths = allPaths(W.M[d]);
+    size_t n = 0;
+    for (auto& p : paths) {
+      if (++n > 6) break;
+      MValue* m = at(W.M[d], p);
+      if (!m) continue;
+      JsonVariant v = resolve(doc, p);
+      size_t beyond = m->kind == MValue::Arr ? m->a.size() : 0;
+      bool hasZz = m->kind == MValue::Obj && m->member("zz");
+      if (!hasZz) probeAbsent(v["zz"], "JsonVariant[key]", err);
+      if (!hasZz) probeAbsent(v[std::string("zz")], "JsonVariant[std::string]", err);
+      probeAbsent(v[beyond], "JsonVariant[size()]", err);
+      probeAbsent(v[beyond + 1], "JsonVariant[size()+1]", err);
+      if (p.empty()) {
+        if (!hasZz) probeAbsent(doc["zz"], "JsonDocument[key]", err);
+        probeAbsent(doc[beyond], "JsonDocument[size()]", err);
+        if (!hasZz) probeAbsent(doc["zz"]["yy"], "JsonDocument[key][key]", err);
+      }
+      if (m->kind == MValue::Arr) probeAbsent(v.as<JsonArray>()[beyond + 1], "JsonArray[size()+1]", err);
+      if (m->kind == MValue::Obj && !hasZz) probeAbsent(v.as<JsonObject>()["zz"], "JsonObject[key]", err);
+    }
+  }
+  return err;
+}
+
 inline std::string executeTransition(const History& prefix, const Op& last, const Options& opt, bool wantSuccessor) {
   StepResult SR;
   World W;
@@ -995,7 +1054,9 @@ inline std::string executeTransition(const History& prefix, const Op& last, cons
     std::string postConcrete = concreteKey(R, &cerr);
     R.A[0].frozen = R.A[1].frozen = true;
     std::string seen = observeAll(R, W);
+    std::string perr = probeNonConstReads(R, W);
     R.A[0].frozen = R.A[1].frozen = false;
+    if (opt.checkModel && !perr.empty()) SR.viol("readonly-answer", perr);
     std::string rerr = R.A[0].takeErrors() + R.A[1].takeErrors();
     if (opt.checkLedger && !rerr.empty()) SR.viol("readonly-allocates", rerr);
     std::string postConcrete2 = concreteKey(R, nullptr);
@@ -1040,11 +1101,16 @@ inline bool risky(const Op& o) {
   return false;
 }
 
-inline std::string caseKey(const std::string& cfg, const History& prefix, const Op& last) {
-  std::string alias = (last.code == SET_VARIANT || last.code == ADD_VARIANT || last.code == ARRAY_SET || last.code == OBJECT_SET ||
-                       last.code == DOC_SET_DOC)
-                          ? (last.code == DOC_SET_DOC ? std::string(last.doc == last.doc2 ? "self" : "none") : aliasRelation(last))
-                          : "-";
+// `W` (the model world before `last`) adds the kind of the destination to the key of a copy operation, so that a known-finding
+// matcher can tell "the destination is converted / cleared before the source is read" from anything else
+inline std::string caseKey(const std::string& cfg, const History& prefix, const Op& last, const World* W = nullptr) {
+  bool copyOp = last.code == SET_VARIANT || last.code == ADD_VARIANT || last.code == ARRAY_SET || last.code == OBJECT_SET || last.code == DOC_SET_DOC;
+  std::string alias = copyOp ? (last.code == DOC_SET_DOC ? std::string(last.doc == last.doc2 ? "self" : "none") : aliasRelation(last)) : "-";
+  if (copyOp && W) {
+    World& w = const_cast<World&>(*W);
+    MValue* d = at(w.M[last.doc], last.path);
+    alias += std::string(":dst=") + (!d || d->kind == MValue::Null ? "null" : d->kind == MValue::Arr ? "array" : d->kind == MValue::Obj ? "object" : "scalar");
+  }
   History h = prefix;
   h.push_back(last);
   return "hist:cfg=" + cfg + "|ops=" + histText(prefix) + "|last=" + kCodeName[last.code] + ":alias=" + alias + ":" + opText(last) +
@@ -1089,11 +1155,34 @@ inline void loadLevelFiles(const std::string& dir, int level, std::vector<std::p
   }
 }
 
+// --init=<name>: the search starts from a state other than two empty documents (the prefix is part of every history)
+static std::string gInitRaw;
+inline History initHistory(const std::string& name) {
+  History h;
+  if (name == "bulk") {  // D0 parsed from a 9-slot text: three pools, pool table on the heap, shrunk by the deserializer
+    Op o;
+    o.code = DESERIALIZE;
+    o.doc = 0;
+    o.a = NTEXTS - 1;
+    h.push_back(o);
+  } else if (name == "bulk-freed") {  // as bulk, then two elements removed: a populated free list across pools
+    h = initHistory("bulk");
+    Op r;
+    r.code = REMOVE_INDEX;
+    r.doc = 0;
+    r.a = 6;
+    h.push_back(r);
+    r.a = 1;
+    h.push_back(r);
+  }
+  return h;
+}
+
 inline Frontier buildFrontier(const std::string& dir, int level, size_t cap, bool& capped) {
   Frontier F;
   capped = false;
   if (level == 1) {
-    F.states.emplace_back(hash128("init"), "");
+    F.states.emplace_back(hash128("init"), gInitRaw);
     return F;
   }
   std::set<std::string> seen;
@@ -1150,6 +1239,7 @@ inline void runLevel(Ctx& C) {
   Alphabet AB;
   AB.full = C.opt("alphabet", "full") == "full";
   gApi = C.opt("api", "variant") == "handles" ? 1 : 0;
+  gInitRaw = histRaw(initHistory(C.opt("init", "")));
   Options opt;
   opt.checkModel = C.property != "C06";
   opt.checkLedger = C.property != "C04";
@@ -1161,7 +1251,16 @@ inline void runLevel(Ctx& C) {
     h.pop_back();
     C.verbose = true;
     C.index = 1;
-    C.begin(caseKey(cfg, h, last));
+    World Wr;
+    {
+      Real Rr;
+      for (auto& o : h) {
+        Expect e = modelApply(Wr, o);
+        realApply(Rr, o);
+        if (e.resync) { Wr.M[0] = extract(Rr.D[0]->as<JsonVariantConst>()); Wr.M[1] = extract(Rr.D[1]->as<JsonVariantConst>()); }
+      }
+    }
+    C.begin(caseKey(cfg, h, last, &Wr));
     std::string out = executeTransition(h, last, opt, true);
     applyProtocol(C, out, nullptr);
     printf("%s", out.c_str());
@@ -1231,7 +1330,7 @@ inline void runLevel(Ctx& C) {
     for (auto& op : ops) {
       if (noAlias && risky(op)) continue;  // aliasing copies belong to C04 (known finding D11/D12)
       if (!C.take()) continue;
-      std::string key = caseKey(cfg, h, op);
+      std::string key = caseKey(cfg, h, op, &W);
       if (risky(op)) {
         // transitions covered by a listed known finding are executed (in a forked child) only a few times per
         // shard and level: enough to tell whether the finding still reproduces, without paying a fork for each
